@@ -3,67 +3,141 @@
 package cache
 
 import (
+	"container/list"
 	"fmt"
+	"reflect"
+	"unsafe"
 
 	"github.com/oasisprotocol/curve25519-voi/curve"
+	"github.com/oasisprotocol/curve25519-voi/primitives/ed25519"
 )
 
-// VerifLRUState reads the real LRU cache: keys in recency order (most recent
-// first), the size of the index, the capacity, and every structural
-// inconsistency between index and recency list.  Caller must hold no lock and
-// no other thread may be running.
+// verifField returns an addressable, readable view of the first field of struct v whose type satisfies pick (fields are
+// found by TYPE, not by name, so that the accessor keeps compiling and working when the change under test renames or
+// adds fields).
+func verifField(v reflect.Value, pick func(t reflect.Type) bool) (reflect.Value, bool) {
+	for i := 0; i < v.NumField(); i++ {
+		f := v.Field(i)
+		if pick(f.Type()) {
+			if f.CanAddr() {
+				f = reflect.NewAt(f.Type(), unsafe.Pointer(f.UnsafeAddr())).Elem()
+			}
+			return f, true
+		}
+	}
+	return reflect.Value{}, false
+}
+
+var (
+	verifKeyType  = reflect.TypeOf(curve.CompressedEdwardsY{})
+	verifListType = reflect.TypeOf(list.List{})
+	verifElemType = reflect.TypeOf((*list.Element)(nil))
+	verifExpType  = reflect.TypeOf((*ed25519.ExpandedPublicKey)(nil))
+)
+
+// VerifLRUState reads the real LRU cache: keys in recency order (most recent first), the size of the index, the
+// capacity, and every structural inconsistency between index and recency list.  Caller must hold no lock and no other
+// thread may be running.
 func VerifLRUState(c Cache) (order []curve.CompressedEdwardsY, storeLen, capacity int, problems []string) {
 	l, ok := c.(*lruCache)
 	if !ok {
 		return nil, 0, 0, []string{"not an lruCache"}
 	}
-	storeLen, capacity = len(l.store), l.capacity
+	rv := reflect.ValueOf(l).Elem()
+	storeV, ok1 := verifField(rv, func(t reflect.Type) bool { return t.Kind() == reflect.Map && t.Key() == verifKeyType })
+	listV, ok2 := verifField(rv, func(t reflect.Type) bool { return t == verifListType || (t.Kind() == reflect.Ptr && t.Elem() == verifListType) })
+	capV, ok3 := verifField(rv, func(t reflect.Type) bool { return t.Kind() == reflect.Int })
+	if !ok1 || !ok2 || !ok3 {
+		return nil, 0, 0, []string{"lruCache no longer has an index map keyed by the compressed key, a container/list recency list and an int capacity: its structure cannot be inspected"}
+	}
+	var lst *list.List
+	if listV.Kind() == reflect.Ptr {
+		lst = listV.Interface().(*list.List)
+	} else {
+		lst = listV.Addr().Interface().(*list.List)
+	}
+	storeLen, capacity = storeV.Len(), int(capV.Int())
+	// an entry: anything (pointer to) struct with an expanded key and a list element inside
+	entryOf := func(x interface{}) (exp *ed25519.ExpandedPublicKey, el *list.Element, id uintptr, ok bool) {
+		v := reflect.ValueOf(x)
+		if !v.IsValid() || v.Kind() != reflect.Ptr || v.IsNil() || v.Elem().Kind() != reflect.Struct {
+			return nil, nil, 0, false
+		}
+		id = v.Pointer()
+		e := v.Elem()
+		if f, ok := verifField(e, func(t reflect.Type) bool { return t == verifExpType }); ok {
+			exp, _ = f.Interface().(*ed25519.ExpandedPublicKey)
+		}
+		if f, ok := verifField(e, func(t reflect.Type) bool { return t == verifElemType }); ok {
+			el, _ = f.Interface().(*list.Element)
+		}
+		return exp, el, id, true
+	}
 	seen := map[curve.CompressedEdwardsY]bool{}
 	n := 0
-	for el := l.list.Front(); el != nil; el = el.Next() {
+	for el := lst.Front(); el != nil; el = el.Next() {
 		n++
 		if n > 1<<16 {
 			problems = append(problems, "recency list is cyclic or huge")
 			break
 		}
-		ent, ok := el.Value.(*lruEntry)
-		if !ok || ent == nil {
+		exp, back, id, ok := entryOf(el.Value)
+		if !ok {
 			problems = append(problems, "list element does not hold an entry")
 			continue
 		}
-		if ent.element != el {
+		if back != el {
 			problems = append(problems, "entry.element does not point at its list element")
 		}
-		if ent.publicKey == nil {
+		if exp == nil {
 			problems = append(problems, "entry without expanded key")
 			continue
 		}
-		k := ent.publicKey.CompressedY()
+		k := exp.CompressedY()
 		order = append(order, k)
 		if seen[k] {
 			problems = append(problems, fmt.Sprintf("key %x twice in recency list", k[:4]))
 		}
 		seen[k] = true
-		if l.store[k] != ent {
+		sv := storeV.MapIndex(reflect.ValueOf(k))
+		if !sv.IsValid() || sv.Kind() != reflect.Ptr || sv.Pointer() != id {
 			problems = append(problems, fmt.Sprintf("index entry for %x is not the list entry", k[:4]))
 		}
 	}
-	if l.list.Len() != n {
-		problems = append(problems, fmt.Sprintf("list.Len()=%d but %d elements reachable", l.list.Len(), n))
+	if lst.Len() != n {
+		problems = append(problems, fmt.Sprintf("list.Len()=%d but %d elements reachable", lst.Len(), n))
 	}
-	if len(l.store) != n {
-		problems = append(problems, fmt.Sprintf("index has %d entries, recency list %d", len(l.store), n))
+	if storeLen != n {
+		problems = append(problems, fmt.Sprintf("index has %d entries, recency list %d", storeLen, n))
 	}
-	if n > l.capacity {
-		problems = append(problems, fmt.Sprintf("%d entries exceed capacity %d", n, l.capacity))
+	if n > capacity {
+		problems = append(problems, fmt.Sprintf("%d entries exceed capacity %d", n, capacity))
 	}
-	for k, ent := range l.store {
-		if ent == nil || ent.publicKey == nil {
+	it := storeV.MapRange()
+	for it.Next() {
+		k := it.Key().Interface().(curve.CompressedEdwardsY)
+		ev := it.Value()
+		if ev.Kind() != reflect.Ptr || ev.IsNil() {
 			problems = append(problems, "nil index entry")
 			continue
 		}
-		if ent.publicKey.CompressedY() != k {
-			problems = append(problems, fmt.Sprintf("index key %x maps to expansion of %x", k[:4], func() []byte { c := ent.publicKey.CompressedY(); return c[:4] }()))
+		ee := ev.Elem()
+		f, ok := verifField(ee, func(t reflect.Type) bool { return t == verifExpType })
+		if !ok {
+			continue
+		}
+		var exp *ed25519.ExpandedPublicKey
+		if f.CanInterface() {
+			exp, _ = f.Interface().(*ed25519.ExpandedPublicKey)
+		} else if !f.IsNil() {
+			exp = (*ed25519.ExpandedPublicKey)(unsafe.Pointer(f.Pointer()))
+		}
+		if exp == nil {
+			problems = append(problems, "nil index entry")
+			continue
+		}
+		if ck := exp.CompressedY(); ck != k {
+			problems = append(problems, fmt.Sprintf("index key %x maps to expansion of %x", k[:4], ck[:4]))
 		}
 	}
 	return
